@@ -292,7 +292,14 @@ func c19CancelJoin(c *ctx) {
 	c.r.Check(okAdd, rule, fkey(rule, fn, "add-per-worker"), c.fpos(fn), "WaitGroup.Add(1) per worker", "workers are not registered with the WaitGroup one by one")
 	// collector: returns an error on ctx.Done and on worker error
 	okCol := false
-	for _, b := range fn.Blocks {
+	var colBlocks []*ssa.BasicBlock
+	for _, g := range unitFuncs(fn) {
+		// the generator itself or the private helper its collector loop was moved into (not the workers)
+		if g.Parent() == nil && (g == fn || !strings.Contains(g.Name(), "runGenPrimeRoutine")) {
+			colBlocks = append(colBlocks, g.Blocks...)
+		}
+	}
+	for _, b := range colBlocks {
 		for _, in := range b.Instrs {
 			if sel, ok := in.(*ssa.Select); ok && sel.Blocking {
 				hasErr, hasDone := false, false
